@@ -79,13 +79,10 @@ def finishChildren (g : GSpec) (raw : List DNA) : M Pop := do
   let outs ← setOrder outs
   forEachM mkChild outs
 
-/-- `where.Any(k=1)`: all points if there is at most one, else one sampled index. -/
-def pickPoint (n : Nat) : M Nat :=
-  if n ≤ 1 then pure 0
-  else nextSample n 1 >>= fun is =>
-    match is with
-    | [t] => pure t
-    | _ => fail .desync
+/-- `where.Any(k)`: all points if `k >= len`, else `sorted(random.sample(range(len), k))`. -/
+def pickPoints (n k : Nat) : M (List Nat) :=
+  if k ≥ n then pure (List.range n)
+  else nextSample n k >>= fun is => pure (sortNats is)
 
 /-- the four (parent × proposal) trees: a point below a chosen candidate (`none`) is never looked at by
 `from_dict` (it takes the enclosing node whole); at root element `j` each parent's own entries are
@@ -104,22 +101,27 @@ def place (loc : Option Nat) (x y : DNA) (c0 c1 : List Nat) : M (List DNA) :=
       | _, _, _, _ => fail .key
     | _, _ => fail .desync
 
-/-- `Permutation.recombine` for a `permutate` method given as a function of the two decision lists. -/
-def permProposals (permute : List Nat → List Nat → M (List Nat × List Nat)) (pts : List PermPoint)
+/-- `Permutation.recombine` for a `permutate` method given as a function of the two decision lists:
+for every selected permutation point, in order, the proposals are placed into fresh copies of the
+parents' dictionaries. -/
+def permProposals (permute : List Nat → List Nat → M (List Nat × List Nat)) (k : Nat) (pts : List PermPoint)
     (x y : DNA) : M (List DNA) :=
-  pickPoint pts.length >>= fun t =>
-    match pts[t]? with
-    | none => fail .desync
-    | some (loc, vx, vy) => permute vx vy >>= fun cs => place loc x y cs.1 cs.2
+  pickPoints pts.length k >>= fun ts =>
+    forEachM (fun t =>
+      match pts[t]? with
+      | none => fail .desync
+      | some (loc, vx, vy) => permute vx vy >>= fun cs => place loc x y cs.1 cs.2) ts >>= fun ls =>
+    pure ls.flatten
 
-def recPerm (permute : List Nat → List Nat → M (List Nat × List Nat)) (g : GSpec) : Op := fun pop =>
+/-- `k` is the `k` of the `where.Any(k)` filter (1 by default). -/
+def recPerm (permute : List Nat → List Nat → M (List Nat × List Nat)) (k : Nat) (g : GSpec) : Op := fun pop =>
   match pop with
   | [x, y] =>
     if !popAligned pop then fail .unmodelled
-    else if (permPoints g x.dna y.dna).isEmpty then pure pop        -- `return parents`
     else do
-      let raw ← permProposals permute (permPoints g x.dna y.dna) x.dna y.dna
-      finishChildren g raw
+      let raw ← permProposals permute k (permPoints g x.dna y.dna) x.dna y.dna
+      if raw.isEmpty then pure pop                     -- no point selected: `return parents`
+      else finishChildren g raw
   | _ => fail .value
 
 /-- the two cut points of Order / PMX: `sorted(random.sample(range(size), 2))` (one draw: two distinct
@@ -135,7 +137,7 @@ def cutPoints (size : Nat) : M (Nat × Nat) :=
 def permuteOrder (vx vy : List Nat) : M (List Nat × List Nat) :=
   cutPoints vx.length >>= fun se => pure (orderChild vx vy se.1 se.2, orderChild vy vx se.1 se.2)
 
-def recOrder (g : GSpec) : Op := recPerm permuteOrder g
+def recOrder (g : GSpec) : Op := recPerm permuteOrder 1 g
 
 /-! ### Partially mapped crossover (recombinators.py:852-902) -/
 
@@ -177,57 +179,59 @@ def permutePMX (vx vy : List Nat) : M (List Nat × List Nat) :=
     | some c0, some c1 => pure (c0, c1)
     | _, _ => fail .key
 
-def recPMX (g : GSpec) : Op := recPerm permutePMX g
+def recPMX (g : GSpec) : Op := recPerm permutePMX 1 g
 
-/-! ### Cycle crossover (recombinators.py:960-1009) -/
+/-! ### Cycle crossover (recombinators.py:960-1009)
 
-abbrev Kids := List (Option Nat) × List (Option Nat)
+`cycle_crossover` fills the two children with the recursive `pick(child_id, parent_id, index)`: starting
+from an unvisited position `i` it walks the cycle `i → index_in_p0(p1[i]) → …` and gives child
+`child_id` the items of parent 0 and the other child the items of parent 1 on that cycle. The model
+walks the same cycle iteratively (`orbit`); a cycle that does not close, or an item of one parent that
+the other does not have, is the `KeyError` / unfilled child of the code (`Err.key`). -/
 
-def kidGet (ch : Kids) (cid idx : Nat) : Option Nat :=
-  (if cid = 0 then ch.1 else ch.2).getD idx none
+/-- the position where parent 0 holds the item parent 1 has at `j`. -/
+def cycNext (p0 p1 : List Nat) (j : Nat) : Nat := p0.idxOf (p1.getD j 0)
 
-def kidSet (ch : Kids) (cid idx v : Nat) : Kids :=
-  if cid = 0 then (ch.1.set idx (some v), ch.2) else (ch.1, ch.2.set idx (some v))
+/-- positions on the cycle through `i`, from `j` on (`acc`: already walked); `none`: not closed. -/
+def orbitFrom (p0 p1 : List Nat) (i : Nat) : Nat → Nat → List Nat → Option (List Nat)
+  | 0, _, _ => none
+  | f + 1, j, acc =>
+    let n := cycNext p0 p1 j
+    if n = i then some (j :: acc)
+    else if n < p0.length then orbitFrom p0 p1 i f n (j :: acc)
+    else none
 
-/-- the nested function `pick(child_id, parent_id, index)`; `fuel` bounds the recursion depth. -/
-def cyclePick (p0 p1 : List Nat) : Nat → Nat → Nat → Nat → Kids → Option Kids
-  | 0, _, _, _, _ => none
-  | f + 1, cid, pid, idx, ch =>
-    if (kidGet ch cid idx).isSome then some ch
-    else
-      let self := if pid = 0 then p0 else p1
-      let other := if pid = 0 then p1 else p0
-      match self[idx]?, other[idx]? with
-      | some x, some y =>
-        let ch := kidSet ch cid idx x
-        if self.idxOf y < self.length then
-          match cyclePick p0 p1 f cid pid (self.idxOf y) ch with
-          | some ch => cyclePick p0 p1 f (1 - cid) (1 - pid) idx ch
-          | none => none
-        else none                              -- KeyError
-      | _, _ => none
+def orbit (p0 p1 : List Nat) (i : Nat) : Option (List Nat) := orbitFrom p0 p1 i p0.length i []
+
+/-- `true`: child 0 takes parent 0's item at that position (and child 1 parent 1's). -/
+def assignAll (asg : List (Option Bool)) (o : List Nat) (b : Bool) : List (Option Bool) :=
+  o.foldl (fun a j => a.set j (some b)) asg
 
 /-- `for i in range(size): if children[0][i] is None: child_id = random.choice([0, 1]); pick(...)`. -/
-def cycleLoop (p0 p1 : List Nat) : List Nat → Kids → M Kids
-  | [], ch => pure ch
-  | i :: is, ch =>
-    if (kidGet ch 0 i).isSome then cycleLoop p0 p1 is ch
+def cycleLoop (p0 p1 : List Nat) : List Nat → List (Option Bool) → M (List (Option Bool))
+  | [], asg => pure asg
+  | i :: is, asg =>
+    if (asg.getD i none).isSome then cycleLoop p0 p1 is asg
     else nextIdx .choice 2 >>= fun c =>
-      match cyclePick p0 p1 (2 * p0.length + 2) c 0 i ch with
-      | some ch => cycleLoop p0 p1 is ch
+      match orbit p0 p1 i with
+      | some o => cycleLoop p0 p1 is (assignAll asg o (c == 0))
       | none => fail .key
 
-def allSomeNat : List (Option Nat) → Option (List Nat)
+def allSomeBool : List (Option Bool) → Option (List Bool)
   | [] => some []
-  | some a :: t => (allSomeNat t).map (a :: ·)
+  | some a :: t => (allSomeBool t).map (a :: ·)
   | none :: _ => none
 
-def permuteCycle (vx vy : List Nat) : M (List Nat × List Nat) :=
-  cycleLoop vx vy (List.range vx.length) (List.replicate vx.length none, List.replicate vx.length none) >>= fun ch =>
-    match allSomeNat ch.1, allSomeNat ch.2 with
-    | some c0, some c1 => pure (c0, c1)
-    | _, _ => fail .key
+/-- the child that takes parent `p0`'s items where the side is `true`. -/
+def cycleChild (p0 p1 : List Nat) (sides : List Bool) : List Nat :=
+  (List.range p0.length).map (fun j => if sides.getD j false then p0.getD j 0 else p1.getD j 0)
 
-def recCycle (g : GSpec) : Op := recPerm permuteCycle g
+def permuteCycle (vx vy : List Nat) : M (List Nat × List Nat) :=
+  cycleLoop vx vy (List.range vx.length) (List.replicate vx.length none) >>= fun asg =>
+    match allSomeBool asg with
+    | some sides => pure (cycleChild vx vy sides, cycleChild vx vy (sides.map (!·)))
+    | none => fail .key
+
+def recCycle (g : GSpec) : Op := recPerm permuteCycle 1 g
 
 end Pg.C14
